@@ -1238,6 +1238,10 @@ class Walker:
     def merge(self, cond: Term, env: Dict[str, Term], a: Dict[str, Term], b: Dict[str, Term]) -> None:
         for k in list(dict.fromkeys(list(a) + list(b))):
             va, vb = a.get(k, ("undef",)), b.get(k, ("undef",))
+            if va != vb and not self.loopstack and cond[0] == "cmp" and cond[1] in ("<", "<=") and {va, vb} == {cond[2], cond[3]}:
+                # `if x > hi: x = hi` (outside any loop) is the clamp x = min(x, hi), like the conditional expression
+                env[k] = mk_ext("min" if va == cond[2] else "max", [va, vb])
+                continue
             env[k] = va if va == vb else ("sel", cond, va, vb)
 
     @staticmethod
@@ -1594,6 +1598,23 @@ class Walker:
                 cond = ast.copy_location(ast.If(test=test, body=[loop], orelse=[]), s)
                 ast.fix_missing_locations(cond)
                 return self.statement(cond, env)
+        if dom[0] == "call" and dom[1] == ("builtin", "range") and len(dom[2]) == 1 and not dom[3] and dom[2][0][0] == "sel" \
+                and not s.orelse and (dom[2][0][2] == ("const", 0)) != (dom[2][0][3] == ("const", 0)):
+            # `n = 0 if xs is None else len(xs); for i in range(n)` is `if xs is not None: for i in range(len(xs))`
+            sel = dom[2][0]
+            self._cw_n = getattr(self, "_cw_n", 0) + 1
+            tc, td = f"$c{self._cw_n}", f"$d{self._cw_n}"
+            env[tc] = sel[1]
+            env[td] = sel[3] if sel[2] == ("const", 0) else sel[2]
+            test = ast.Name(id=tc, ctx=ast.Load())
+            if sel[2] == ("const", 0):
+                test = ast.UnaryOp(op=ast.Not(), operand=test)
+            rng = ast.Call(func=ast.Name(id="range", ctx=ast.Load()), args=[ast.Name(id=td, ctx=ast.Load())], keywords=[])
+            loop = ast.copy_location(ast.For(target=s.target, iter=rng, body=s.body, orelse=[], lineno=s.lineno), s)
+            cond = ast.copy_location(ast.If(test=test, body=[loop], orelse=[]), s)
+            ast.fix_missing_locations(cond)
+            del self.events[n_ev:]
+            return self.statement(cond, env)
         fused = fuse_mapped_domain(dom)
         if fused is not None:
             dom = fused[0]
@@ -2113,6 +2134,15 @@ class Walker:
                 args.append(v)
         args = tuple(args)
         kwargs = tuple((k.arg or "**", self.ev(k.value, env)) for k in e.keywords)
+        if any(k == "**" and v[0] == "dict" and all(kk[0] == "const" and isinstance(kk[1], str) for kk, _ in v[1]) for k, v in kwargs):
+            # f(**d) with d a dict display built in this walk: its entries are the keyword arguments
+            flat = []
+            for k, v in kwargs:
+                if k == "**" and v[0] == "dict" and all(kk[0] == "const" and isinstance(kk[1], str) for kk, _ in v[1]):
+                    flat.extend((kk[1], vv) for kk, vv in v[1])
+                else:
+                    flat.append((k, v))
+            kwargs = tuple(flat)
         # struct.Struct(fmt).unpack(buf) / .pack(...) / .unpack_from(...) are the module functions applied to fmt
         if fn[0] == "attr" and fn[1][0] == "call" and fn[1][1] == ("mod", "struct.Struct") and len(fn[1][2]) == 1 \
                 and fn[2] in ("unpack", "pack", "unpack_from", "iter_unpack", "pack_into"):
@@ -2215,7 +2245,7 @@ class Walker:
                 if len(cands) == 1 and api_signature(cands[0]) is None and self.inline(cands[0]) \
                         and len(self.fnstack) <= self.max_depth and cands[0] not in self.fnstack:
                     return self.inline_call(cands[0], recv, args, kwargs, e)
-            args, kwargs = self._positional(meth, args, kwargs)
+            args, kwargs = self._positional(meth, args, kwargs, self.repo.method(rcls, meth) if rcls else None)
             t = ("call", fn, args, kwargs)
             self.emit("call", e, target=fn, value=t, name=meth, args=args, kwargs=kwargs)
             if recv[0] == "alloc" and recv[1] == "list" and recv[-1] in self.__dict__.get("lists", {}) \
@@ -2255,6 +2285,7 @@ class Walker:
                 fi = mi.functions[name]
                 if self.inline(fi) and len(self.fnstack) <= self.max_depth and fi not in self.fnstack:
                     return self.inline_call(fi, None, args, kwargs, e)
+                args, kwargs = self._positional(name, args, kwargs, fi)
             # `Class.helper(...)`: a static method called through its class
             cname = mod.rpartition(".")[2]
             owners = [ci for m2 in self.repo.modules.values() for cn, ci in m2.classes.items() if cn == cname]
@@ -2267,12 +2298,14 @@ class Walker:
         self.emit("call", e, target=fn, value=t, name=fname or show(fn), args=args, kwargs=kwargs)
         return t
 
-    def _positional(self, meth: str, args, kwargs):
+    def _positional(self, meth: str, args, kwargs, fi=None):
         """`g.create_arcs(k=best_k, distance_function=f)` is `g.create_arcs(best_k, f)`: keyword arguments of a call to a
         method of the library are put in the positions the (unique) signature of that name gives them."""
         if not kwargs or any(k == "**" for k, _ in kwargs):
             return args, kwargs
         memo = self.repo.memo.setdefault("method_params", {})
+        if fi is not None and not fi.node.args.vararg and not fi.node.args.kwarg and not fi.node.args.kwonlyargs:
+            memo = {meth: tuple(p for p in fi.params if p != "self")}  # the callee is known: its own signature
         if meth not in memo:
             sigs = set()
             for mi in self.repo.modules.values():
